@@ -168,6 +168,7 @@ def run(lemmas, preamble, timeout=60, shards=None, label="xh", keep=False, extra
     env = dict(os.environ)
     env["PYTHONDONTWRITEBYTECODE"] = "1"
     env["PYTHONHASHSEED"] = "0"
+    env["VERIF_XH_WORK"] = work  # scratch files of harness modules go here and disappear with the run
     if extra_env:
         env.update(extra_env)
 
